@@ -21,7 +21,9 @@ EXPLANATION = (
     "where the slice is empty anyway. Swapped paths, a missing or extra `reversed`, a slice that starts one element early "
     "or late, common[0] instead of common[-1] are each reported. K3 the common prefix is computed by pairing the two "
     "root-down paths positionally (zip) and keeping the elements that are identical (`is`) - a filter on value equality or "
-    "on one path only is reported (identity itself is also C17's subject). K4 walk is effect-free (it cannot disturb the "
+    "on one path only is reported (identity itself is also C17's subject); a scan loop over the zipped paths that stops at the "
+    "first pair of different objects, and a loop/helper that counts the leading identical positions, are the same computation "
+    "(its end test must compare numbers by value, `path[0]` is the root, `last is None` after the scan means different trees). K4 walk is effect-free (it cannot disturb the "
     "tree it describes). Not decided: that paths of nodes of one tree share exactly a prefix (C01/C04), so that the "
     "positional matches are that prefix; the concrete tuples for a given tree. An implementation that derives the triple in "
     "another way (walking parents, sets of ancestors) is answered with 'cannot follow' (ANALYSIS-ERROR), not with a verdict."
@@ -59,9 +61,30 @@ def show(v):
         return "common[%s]" % v[1]
     if k == "empty":
         return "()"
+    if k == "scanlast":
+        return "<last node at which the two paths agree, or None>"
     if k == "int":
         return str(v[1])
     return str(tuple(v))
+
+
+def _is_climb_helper(h):
+    """generator `def f(n, t): while n is not t: yield n; n = n.parent`"""
+    ps = [p for p in h.posparams if p != h.selfname]
+    body = [st for st in h.node.body if not (isinstance(st, ast.Expr) and isinstance(st.value, ast.Constant))]
+    if len(ps) != 2 or len(body) != 1 or not isinstance(body[0], ast.While) or body[0].orelse:
+        return False
+    n_, t_ = ps
+    w = body[0]
+    tst = w.test
+    if not (isinstance(tst, ast.Compare) and len(tst.ops) == 1 and isinstance(tst.ops[0], ast.IsNot)
+            and sorted([norm(tst.left), norm(tst.comparators[0])]) == sorted([n_, t_])):
+        return False
+    if len(w.body) != 2:
+        return False
+    y, step = w.body
+    return isinstance(y, ast.Expr) and isinstance(y.value, ast.Yield) and norm(y.value.value) == n_ \
+        and isinstance(step, ast.Assign) and norm(step.targets[0]) == n_ and norm(step.value) == "%s.parent" % n_
 
 
 def reaching_defs(cfgnode, name, limit=600):
@@ -139,6 +162,11 @@ class Evaluator:
                 stores = [n for n in walk_own(self.f.node) if isinstance(n, ast.Name) and n.id == e.id and isinstance(n.ctx, ast.Store)]
                 if not stores:
                     return [(V("node", "start" if e.id == self.start else "end"), ())]
+            sc = self._scan_var(e.id, at)
+            if sc is None:
+                sc = self._while_scan_var(e.id, at)
+            if sc is not None:
+                return [(sc, ())]
             defs = reaching_defs(at, e.id)
             if not defs:
                 raise _Undecided("cannot find the definition of `%s`" % e.id)
@@ -205,9 +233,20 @@ class Evaluator:
                 if base[0] in ("path", "slice", "common"):
                     return [(V("int", "search:%s" % norm(e)), ())]
             callee = self._resolve(e)
+            if callee is not None and len(e.args) == 2 and _is_climb_helper(callee):
+                # `while n is not t: yield n; n = n.parent`: from the first argument upwards, the second one excluded
+                who, bound = self.one(e.args[0], at), self.one(e.args[1], at)
+                if who[0] == "node":
+                    if bound == V("elem", "last") or bound == V("scanlast"):
+                        return [(V("slice", who[1], "L", True), ())]
+                    if bound[0] == "root" or bound == V("elem", "first"):
+                        return [(V("slice", who[1], 1, True), ())]
+                raise _Undecided("climb `%s` from %s up to %s" % (norm(e), show(who), show(bound)))
             if callee is not None:
                 args = [self.one(a, at) for a in e.args]
                 if len(args) == 2 and all(a[0] == "path" for a in args):
+                    if self._is_length_helper(callee):
+                        return [(V("int", "L"), ())]
                     self._check_common_helper(callee)
                     return [(V("common", args[0][1], args[1][1]), ())]
                 raise _Undecided("call `%s` with %s" % (norm(e), [show(a) for a in args]))
@@ -255,6 +294,12 @@ class Evaluator:
                             out.append((V("elem", "first"), g))
                         else:
                             out.append((V("elem", str(i)), g))
+                    elif base[0] == "path" and idx == V("int", 0):
+                        out.append((V("root", base[1]), g))  # a root-down path starts at the root (C04)
+                    elif base[0] == "path" and idx == V("int", "L-1"):
+                        out.append((V("elem", "last"), g))  # the first L positions of both paths are the common prefix
+                    elif base[0] == "path" and idx[0] == "int" and isinstance(idx[1], str) and idx[1].startswith("L"):
+                        out.append((V("elem", "path[%s]" % idx[1]), g))
                     else:
                         raise _Undecided("index `%s`" % norm(e))
             return out
@@ -296,6 +341,183 @@ class Evaluator:
                      construct="%s element" % func.qual)
         else:
             ctx.inst("K3", func, where, "positional pairs of the two paths kept when identical")
+
+    # ---- prefix scan written as a loop: `for s, e in zip(startpath, endpath): if s is not e: break; last = s; n += 1`
+    def _scan_loops(self):
+        if hasattr(self, "_scans"):
+            return self._scans
+        self._scans = []
+        for lp in [n for n in walk_own(self.f.node) if isinstance(n, ast.For)]:
+            it = lp.iter
+            if not (isinstance(it, ast.Call) and isinstance(it.func, ast.Name) and it.func.id == "zip" and len(it.args) == 2 and not it.keywords):
+                continue
+            node = next((n for n in self.cfg.nodes if n.ast is lp and n.kind in ("foriter", "fornext")), None)
+            if node is None:
+                continue
+            try:
+                a, b = self.one(it.args[0], node), self.one(it.args[1], node)
+            except _Undecided:
+                continue
+            if not (a[0] == "path" and b[0] == "path" and {a[1], b[1]} == {"start", "end"}):
+                continue
+            tgt = lp.target
+            names = [x.id for x in tgt.elts] if isinstance(tgt, ast.Tuple) and len(tgt.elts) == 2 and all(isinstance(x, ast.Name) for x in tgt.elts) else None
+            if names is None or lp.orelse or not lp.body:
+                raise _Undecided("loop over the zipped paths in %s" % self.f.qual)
+            first = lp.body[0]
+            okbreak = isinstance(first, ast.If) and not first.orelse and len(first.body) == 1 and isinstance(first.body[0], ast.Break)
+            if not okbreak:
+                raise _Undecided("loop over the zipped paths in %s does not stop at the first difference" % self.f.qual)
+            t = first.test
+            ident = isinstance(t, ast.Compare) and len(t.ops) == 1 and isinstance(t.ops[0], ast.IsNot) \
+                and sorted([norm(t.left), norm(t.comparators[0])]) == sorted(names)
+            if not ident:
+                self.ctx.viol("K3", self.f, t, "the scan of the two paths stops under `%s`, not exactly when the two nodes at a position are "
+                              "different objects: nodes that merely compare equal (or any other test) change the common part" % norm(t),
+                              construct="%s scan stops under a different test" % self.f.qual)
+            else:
+                self.ctx.inst("K3", self.f, lp, "positional pairs of the two paths scanned while identical")
+            last, count = set(), set()
+            for st_ in lp.body[1:]:
+                if isinstance(st_, ast.Assign) and len(st_.targets) == 1 and isinstance(st_.targets[0], ast.Name) \
+                        and isinstance(st_.value, ast.Name) and st_.value.id in names:
+                    last.add(st_.targets[0].id)
+                elif isinstance(st_, ast.AugAssign) and isinstance(st_.op, ast.Add) and isinstance(st_.target, ast.Name) \
+                        and isinstance(st_.value, ast.Constant) and st_.value.value == 1:
+                    count.add(st_.target.id)
+                else:
+                    raise _Undecided("statement `%s` in the scan loop of %s" % (norm(st_)[:50], self.f.qual))
+            # initial values: None for the last common node, 0 for the counter; no other binding anywhere
+            for v in last | count:
+                stores = [n for n in walk_own(self.f.node) if isinstance(n, ast.Name) and n.id == v and isinstance(n.ctx, ast.Store)]
+                inits = []
+                for n in walk_own(self.f.node):
+                    if isinstance(n, ast.Assign) and any(isinstance(t_, ast.Name) and t_.id == v for t_ in n.targets) \
+                            and not any(n is x for x in ast.walk(lp)):
+                        inits.append(n)
+                inside = [x for x in ast.walk(lp) if isinstance(x, ast.Name) and x.id == v and isinstance(x.ctx, ast.Store)]
+                want = None if v in last else 0
+                if len(inits) != 1 or len(stores) != len(inits) + len(inside) or not (isinstance(inits[0].value, ast.Constant) and inits[0].value.value == want
+                                                                                         and type(inits[0].value.value) is type(want)) \
+                        or inits[0].lineno > lp.lineno:
+                    if len(inits) == 1 and isinstance(inits[0].value, ast.Constant) and inits[0].lineno < lp.lineno and v in count \
+                            and len(stores) == len(inits) + len(inside):
+                        self.ctx.viol("K2", self.f, inits[0], "the counter of common positions starts at %r, not 0: every slice taken with it "
+                                      "is shifted" % inits[0].value.value, construct="%s scan counter start" % self.f.qual)
+                        continue
+                    raise _Undecided("initialisation of `%s` for the scan loop of %s" % (v, self.f.qual))
+            self._scans.append((lp, last, count))
+        return self._scans
+
+    def _scan_var(self, name, at):
+        for lp, last, count in self._scan_loops():
+            if name in last or name in count:
+                end = getattr(lp, "end_lineno", lp.lineno)
+                a = at.ast
+                if a is not None and getattr(a, "lineno", 0) > end:
+                    return V("scanlast") if name in last else V("int", "L")
+                raise _Undecided("`%s` is read inside its scan loop" % name)
+        return None
+
+    def _while_scan_var(self, name, at):
+        """the counting scan written inline in walk (e.g. after the helper was inlined)"""
+        if not hasattr(self, "_wscans"):
+            self._wscans = {}
+            for wl in [n for n in walk_own(self.f.node) if isinstance(n, ast.While)]:
+                if wl.orelse or len(wl.body) != 1:
+                    continue
+                inc = wl.body[0]
+                if not (isinstance(inc, ast.AugAssign) and isinstance(inc.op, ast.Add) and isinstance(inc.target, ast.Name)
+                        and isinstance(inc.value, ast.Constant) and inc.value.value == 1):
+                    continue
+                idx = inc.target.id
+                subs = sorted({norm(x.value) for x in ast.walk(wl.test) if isinstance(x, ast.Subscript) and norm(x.slice) == idx
+                               and isinstance(x.value, ast.Name)})
+                if len(subs) != 2:
+                    continue
+                node = next((n for n in self.cfg.nodes if n.ast is wl or (n.kind in ("test", "guard") and getattr(n, "cond", None) is wl.test)), None)
+                stores = [n for n in walk_own(self.f.node) if isinstance(n, ast.Name) and n.id == idx and isinstance(n.ctx, ast.Store)]
+                if len(stores) != 2:
+                    continue
+                self._wscans[idx] = (wl, subs, None)
+        if name not in self._wscans:
+            return None
+        wl, subs, done = self._wscans[name]
+        if getattr(at.ast, "lineno", 0) <= getattr(wl, "end_lineno", wl.lineno):
+            raise _Undecided("`%s` is read inside its counting loop" % name)
+        if done is None:
+            here = next((n for n in self.cfg.nodes if n.ast is not None and getattr(n.ast, "lineno", -1) > getattr(wl, "end_lineno", wl.lineno)), at)
+            vals = []
+            for nm in subs:
+                vals.append(self.one(ast.copy_location(ast.Name(id=nm, ctx=ast.Load()), wl), at))
+            if not (all(v[0] == "path" for v in vals) and {v[1] for v in vals} == {"start", "end"}):
+                raise _Undecided("counting loop over %s in %s" % (subs, self.f.qual))
+            self._parse_count_loop(self.f, self.f.node, wl, name, subs[0], subs[1])
+            self._wscans[name] = (wl, subs, True)
+        return V("int", "L")
+
+    def _is_length_helper(self, h):
+        """`n = 0; while n != size and a[n] is b[n]: n += 1; return n` with size = min(len(a), len(b)): the number of leading
+        positions at which the two paths hold the same object.  Anything else that returns a number is not followed."""
+        ps = [p for p in h.posparams if p != h.selfname]
+        rets = [n for n in walk_own(h.node) if isinstance(n, ast.Return)]
+        whiles = [n for n in walk_own(h.node) if isinstance(n, ast.While)]
+        if len(ps) != 2 or len(rets) != 1 or len(whiles) != 1 or not isinstance(rets[0].value, ast.Name):
+            return False
+        idx = rets[0].value.id
+        wl = whiles[0]
+        if wl.orelse or len(wl.body) != 1:
+            return False
+        inc = wl.body[0]
+        if not (isinstance(inc, ast.AugAssign) and isinstance(inc.op, ast.Add) and isinstance(inc.target, ast.Name) and inc.target.id == idx
+                and isinstance(inc.value, ast.Constant) and inc.value.value == 1):
+            return False
+        if h in self.helpers_checked:
+            return self.helpers_checked[h] == "length"
+        self.helpers_checked[h] = "length"
+        self.ctx.touch(h)
+        self._parse_count_loop(h, h.node, wl, idx, ps[0], ps[1])
+        return True
+
+    def _parse_count_loop(self, h, fnode, wl, idx, a, b):
+        local = {}
+        for st_ in walk_own(fnode):
+            if isinstance(st_, ast.Assign) and len(st_.targets) == 1 and isinstance(st_.targets[0], ast.Name):
+                local[st_.targets[0].id] = st_.value
+        init = local.get(idx)
+        if not (isinstance(init, ast.Constant) and init.value == 0 and type(init.value) is int):
+            raise _Undecided("start value of the counter in %s" % h.qual)
+        conj = wl.test.values if isinstance(wl.test, ast.BoolOp) and isinstance(wl.test.op, ast.And) else [wl.test]
+        bound, ident, other = [], [], []
+        size_txts = ("min(len(%s), len(%s))" % (a, b), "min(len(%s), len(%s))" % (b, a))
+
+        def expand(e_):
+            return norm(local[e_.id]) if isinstance(e_, ast.Name) and e_.id in local and e_.id != idx else norm(e_)
+        for c in conj:
+            if isinstance(c, ast.Compare) and len(c.ops) == 1 and norm(c.left) == idx and expand(c.comparators[0]) in size_txts:
+                if isinstance(c.ops[0], (ast.NotEq, ast.Lt)):
+                    bound.append(c)
+                elif isinstance(c.ops[0], (ast.Is, ast.IsNot)):
+                    self.ctx.viol("K3", h, c, "the end of the scan is tested with `%s`: two equal integers need not be the same object "
+                                  "(only small ones are shared), so on long paths the scan runs past the end" % norm(c),
+                                  construct="%s bound by identity" % h.qual)
+                    bound.append(c)
+                else:
+                    other.append(c)
+            elif isinstance(c, ast.Compare) and len(c.ops) == 1 and sorted([norm(c.left), norm(c.comparators[0])]) == sorted(
+                    ["%s[%s]" % (a, idx), "%s[%s]" % (b, idx)]):
+                if isinstance(c.ops[0], ast.Is):
+                    ident.append(c)
+                else:
+                    self.ctx.viol("K3", h, c, "a position counts as common under `%s`, not exactly when the two nodes at that position are "
+                                  "the same object" % norm(c), construct="%s keeps pairs under a different test" % h.qual)
+                    ident.append(c)
+            else:
+                other.append(c)
+        if other or len(bound) != 1 or len(ident) != 1 or conj.index(bound[0]) > conj.index(ident[0]):
+            raise _Undecided("loop condition `%s` of %s" % (norm(wl.test), h.qual))
+        if not any(f.rule == "K3" and f.func == h.qual for f in self.ctx.findings):
+            self.ctx.inst("K3", h, wl, "leading positions of the two paths counted while identical")
 
     def _reverse(self, v, e):
         if v[0] == "slice":
@@ -436,6 +658,10 @@ def run(ctx):
     def is_root_compare(c, at):
         if not (isinstance(c, ast.Compare) and len(c.ops) == 1 and isinstance(c.ops[0], (ast.Is, ast.IsNot))):
             return None
+        for x, y in ((c.left, c.comparators[0]), (c.comparators[0], c.left)):
+            if isinstance(y, ast.Constant) and y.value is None and side(x, at) == V("scanlast"):
+                # no position at which the two root-down paths agree <=> the roots differ
+                return not isinstance(c.ops[0], ast.Is)
         a, b = side(c.left, at), side(c.comparators[0], at)
         if a is None or b is None:
             return None
@@ -487,7 +713,7 @@ def run(ctx):
                 continue
             for v, guards in alts:
                 if role == "common":
-                    if v == V("elem", "last"):
+                    if v == V("elem", "last") or v == V("scanlast"):
                         ctx.inst("K2", w, e, "second component is the last common node")
                     elif v[0] == "elem":
                         ctx.viol("K2", w, e, "the second component is common[%s], not the LAST node of the common prefix (the lowest "
@@ -539,7 +765,7 @@ def run(ctx):
             ctx.viol("K4", w, e.node, "Walker.walk has an effect: %s in %s" % (e.text, e.func.qual), construct="walk: %s in %s" % (e.text, e.func.qual))
     else:
         ctx.inst("K4", w, w.qual, "effect-free (transitively)")
-    if undecided and not ctx.findings:
+    if undecided and not ctx.new_findings():
         raise AnalysisError("C15 cannot follow this implementation of Walker.walk: %s" % "; ".join(undecided[:3]))
     ctx.floor("K1", 2)
     ctx.floor("K2", 3)
